@@ -151,6 +151,7 @@ def prepare(case):
     # with frozen weights); otherwise autograd is on and the parameters require gradients
     kind0, _, regime = case.kind.partition('+')
     case_kind = kind0
+    f64 = (lambda t: t.double() if (t is not None and torch.is_tensor(t) and t.is_floating_point()) else t) if regime == 'f64' else (lambda t: t)
 
     def in_regime(f):
         if regime != 'nograd':
@@ -162,7 +163,7 @@ def prepare(case):
     # the context / the parameter tensors get another kind than the inputs so that every kind is exercised on every role
     ckind = KINDS[(KINDS.index(case_kind) + 2) % len(KINDS)] if case_kind != 'contig' else 'contig'
     if cfg.kind == 'func':
-        args = cfg.make_args(base_atom, gen)
+        args = {n_: f64(t_) for n_, t_ in cfg.make_args(base_atom, gen).items()}
         callers = {}
         for i, (n, t) in enumerate(args.items()):
             k = case_kind if n == 'inputs' else (ckind if i % 2 else KINDS[(KINDS.index(ckind) + 1) % len(KINDS)])
@@ -176,11 +177,13 @@ def prepare(case):
     if regime == 'frozen':
         for q in m.parameters():
             q.requires_grad_(False)
-    x0 = cfg.gen(base_atom, gen)
-    c0 = cfg.gen_ctx(gen)
+    if regime == 'f64':
+        m = m.double()            # the whole model and its data in double precision (a dtype conversion that is a no-op returns an ALIAS)
+    x0 = f64(cfg.gen(base_atom, gen))
+    c0 = f64(cfg.gen_ctx(gen))
     if warmed:
-        xw = cfg.gen(base_atom, gen)
-        warm(m, cfg, xw, cfg.gen_ctx(gen))
+        xw = f64(cfg.gen(base_atom, gen))
+        warm(m, cfg, xw, f64(cfg.gen_ctx(gen)))
     if case.call == 'inverse':
         x0 = zoo.forward_for_inverse(m, x0, c0)
     cstate = zoo.prep_atom(m, base_atom)
@@ -258,12 +261,12 @@ def enumerate_cases(tier, seed, kinds_full=False, for_translator=False):
             for call in cfg.get_calls():
                 for atom in atoms:
                     if for_translator:
-                        kinds = ['contig', 'contig+nograd']
+                        kinds = ['contig', 'contig+nograd', 'contig+f64']
                     elif tier == 'thorough' or kinds_full:
-                        kinds = list(KINDS) + ['contig+nograd', 'contig+frozen', 'transposed+nograd']
+                        kinds = list(KINDS) + ['contig+nograd', 'contig+frozen', 'transposed+nograd', 'contig+f64']
                     else:
                         rot += 1
-                        kinds = ['contig', KINDS[1 + rot % 4], KINDS[1 + (rot + 2) % 4], ('contig+nograd', 'contig+frozen', 'transposed+nograd')[rot % 3]]
+                        kinds = ['contig', KINDS[1 + rot % 4], KINDS[1 + (rot + 2) % 4], ('contig+nograd', 'contig+frozen', 'transposed+nograd', 'contig+f64')[rot % 4]]
                     for kind in kinds:
                         if kind == 'expanded' and cfg.batch_stats and mode == 'train':
                             kind = 'slice'       # identical rows make the batch statistics degenerate (std = 0)
